@@ -139,7 +139,7 @@ def r3_only_update_writes(ctx):
                         inside = f.key in (BEST + "::update", BEST + "::new") or (f.impl_self_adt == BEST and f.from_expansion)
                         ctx.check(inside, "C07.R3", f.key, "inner:%s" % c, "the inner value of BestIndividual is %s outside update()/new()" % c, loc=f.loc(line))
                     break
-    ctx.floor("C07.R3", "projections of BestIndividual's inner value", n, 3)
+    ctx.floor("C07.R3", "projections of BestIndividual's inner value", n, 2)
     users = [(f, t) for (f, bb, t) in F.callers_of(lambda c: c.get("name") == "deref_mut" and (c.get("self_ty") or "").startswith(BEST + "<"))]
     ctx.check(not users, "C07.R3", BEST, "deref_mut-users", "BestIndividual is mutated through DerefMut in %s" % sorted({f.key for f, t in users}))
     users = F.callers_of(lambda c: c.get("key") in ("mahf::state::registry::StateRegistry::set_value", "mahf::state::registry::StateRegistry::borrow_value_mut", "mahf::state::registry::StateRegistry::try_borrow_value_mut")
@@ -264,7 +264,7 @@ def r4_templates(ctx):
                     ctx.violation("C07.R4", fn.key, "end<-%s" % (sl.origin or "?").split("@")[0], "the run can end with objective values (evaluated by %s) that no best-individual update has seen" % sl.origin, loc=fn.loc())
         if not seen:
             ctx.ok("C07.R4", fn.key, "every-evaluation-reaches-best-update", "excepted: %s" % sorted(w.excepted) if w.excepted else "")
-    ctx.floor("C07.R4", "complete templates analysed", n, 21)
+    ctx.floor("C07.R4", "complete templates analysed", n, 18)
 
 
 def run(ctx):
